@@ -118,53 +118,81 @@ def check_sf_structure(ctx):
     for s in fv.statements():
         if isinstance(s, ast.Assign) and isinstance(s.value, ast.BinOp) and isinstance(s.value.op, ast.Div) and ffts and any(x is ffts[0] for x in ast.walk(fv.expand(s.value, s))) is False:
             pass
-    # normalisation: the first assignment to the structure-factor name that divides |f|^2
-    cand = [s for s in fv.statements() if isinstance(s, ast.Assign) and isinstance(s.value, ast.BinOp) and isinstance(s.value.op, ast.Div) and "abs" in U(s.value)]
+    # normalisation: the assignment that divides |f|^2 (temporaries resolved)
+    cand = [s for s in fv.statements() if isinstance(s, ast.Assign) and isinstance(fv.expand(s.value, s), ast.BinOp) and isinstance(fv.expand(s.value, s).op, ast.Div) and "abs" in U(fv.expand(s.value, s))
+            and "fft" in U(fv.expand(s.value, s))]
     if len(cand) == 1:
         s = cand[0]
-        den = fv.expand(s.value.right, s)
-        leaves = {U(x) for x in ast.walk(den) if isinstance(x, ast.Attribute) and U(x).startswith(field)}
-        fn = (fv.callee(den) or "").split(".")[-1] if isinstance(den, ast.Call) else ""
+        full = fv.expand(s.value, s)
+        den = full.right
         forms = (f"np.dot({data}.flat, {data}.flat)", f"np.sum({data} ** 2)", f"({data} ** 2).sum()", f"np.vdot({data}, {data})", f"np.sum(np.abs({data}) ** 2)", f"np.linalg.norm({data}) ** 2")
         ok = U(den) in forms
         ctx.decide(ok, "RAWDATA", SF + ":normalisation", (fi, s), "normalised by the sum of squares of the same field values",
                    f"the spectrum is normalised by `{U(den)[:70]}`; expected the sum of squares of {data}")
-        num = fv.expand(s.value.left, s)
+        num = full.left
         okm = U(num).replace(" ", "") in (f"np.abs(np_fftn({data},norm='ortho').flat[1:])**2",)
         ctx.decide(okm, "RAWDATA", SF + ":modulus", (fi, s), "squared modulus of every non-zero Fourier mode (non-negative)", f"numerator is `{U(num)[:80]}`, not |f|² of the modes without the zero mode")
     else:
         ctx.undecided("RAWDATA", SF + ":normalisation", fi, "normalisation statement not recognised")
-    # ---- INDEXAGREE: per-axis wave numbers
-    from ..astutil import loop_as_comprehension
+    # ---- INDEXAGREE: per-axis wave numbers: component i = fftfreq(shape[i], spacing[i]/2π)², whatever the iteration is spelled like
+    from ..astutil import loop_as_comprehension, element_index_form
+    from ..algebra import Converter as _Conv, NotAlgebraic as _NA
+    import copy as _copy
 
     comps = [s for s in fv.statements() if isinstance(s, ast.Assign) and isinstance(s.value, ast.ListComp) and "fftfreq" in U(s.value)]
     if not comps:
         for s_ in fv.statements():
             if isinstance(s_, ast.For) and "fftfreq" in U(s_):
                 for init in fv.statements():
-                    if isinstance(init, ast.Assign) and isinstance(init.value, ast.List) and not init.value.elts and isinstance(init.targets[0], ast.Name):
-                        lc_ = loop_as_comprehension(s_, init.targets[0].id)
-                        if lc_ is not None:
-                            comps.append(ast.copy_location(ast.Assign(targets=[init.targets[0]], value=lc_, lineno=s_.lineno), s_))
+                    if isinstance(init, (ast.Assign, ast.AnnAssign)) and isinstance(init.value, ast.List) and not init.value.elts:
+                        tg_ = init.targets[0] if isinstance(init, ast.Assign) else init.target
+                        if isinstance(tg_, ast.Name):
+                            lc_ = loop_as_comprehension(s_, tg_.id)
+                            if lc_ is not None:
+                                comps.append(ast.copy_location(ast.Assign(targets=[ast.Name(id=tg_.id, ctx=ast.Store())], value=lc_, lineno=s_.lineno), s_))
+    km = []
     if len(comps) == 1:
         lc = comps[0].value
         g = lc.generators[0]
-        iv = U(g.target)
-        ff = [c for c in ast.walk(lc.elt) if isinstance(c, ast.Call) and (fv.callee(c) or "").endswith("fftfreq")]
-        ok = False
         detail = U(lc)[:100]
-        if len(ff) == 1 and len(lc.generators) == 1:
-            n_arg = ff[0].args[0] if ff[0].args else None
-            d_arg = kwarg(ff[0], "d") or (ff[0].args[1] if len(ff[0].args) > 1 else None)
-            ok = U(g.iter) in ("range(grid.dim)", "range(grid.num_axes)", "range(len(grid.shape))") and n_arg is not None and U(n_arg) == f"grid.shape[{iv}]" \
-                and d_arg is not None and U(d_arg).replace(" ", "") in (f"grid.discretization[{iv}]/(2*np.pi)", f"grid.discretization[{iv}]/(2*π)", f"grid.discretization[{iv}]/2/np.pi")
-            sq = isinstance(lc.elt, ast.BinOp) and isinstance(lc.elt.op, ast.Pow) and U(lc.elt.right) == "2"
-            ok = ok and sq
+        ok = False
+        ef = element_index_form(g.target, g.iter) if len(lc.generators) == 1 and not g.ifs else None
+        if ef is not None:
+            mapping, rng = ef
+
+            class _S(ast.NodeTransformer):
+                def visit_Name(self, n):
+                    if isinstance(n.ctx, ast.Load) and n.id in mapping:
+                        return _copy.deepcopy(mapping[n.id])
+                    return n
+
+            at_ = comps[0] if fv.node_of(comps[0]) is not None else None
+            elt = lc.elt
+            if at_ is not None:
+                elt = fv.expand(elt, at_, stop=tuple(mapping) + ("grid",))
+            else:
+                # loop form: resolve temporaries defined before the loop (e.g. two_pi)
+                loops_ = [s_ for s_ in fv.statements() if isinstance(s_, ast.For) and "fftfreq" in U(s_)]
+                if loops_:
+                    elt = fv.expand(elt, loops_[0], stop=tuple(mapping) + ("grid",))
+            elt = _S().visit(_copy.deepcopy(elt))
+            ff = [c for c in ast.walk(elt) if isinstance(c, ast.Call) and U(c.func).endswith("fftfreq")]
+            sq = isinstance(elt, ast.BinOp) and isinstance(elt.op, ast.Pow) and U(elt.right) == "2"
+            full_range = rng in ("grid.dim", "grid.num_axes", "len(grid.shape)", "len(grid.discretization)", "zip:grid.shape,grid.discretization")
+            if len(ff) == 1 and sq and full_range:
+                n_arg = arg_or_kw(ff[0], 0, "n")
+                d_arg = arg_or_kw(ff[0], 1, "d")
+                try:
+                    cvx = _Conv()
+                    ok = n_arg is not None and d_arg is not None and U(n_arg) == "grid.shape[__i]" and cvx.conv(d_arg) == cvx.conv(ast.parse("grid.discretization[__i] / (2 * np.pi)", mode="eval").body)
+                except _NA:
+                    ok = False
         ctx.decide(ok, "INDEXAGREE", SF + ":wave-vectors", (fi, comps[0]) if fv.node_of(comps[0]) is not None else fi,
                    "component i of the wave vectors = 2π·fftfreq(shape[i], spacing[i]) for every axis i (same index for size and spacing)",
                    f"wave-vector components are `{detail}`; every axis i needs fftfreq(grid.shape[i], d=grid.discretization[i]/(2π)) with its own cell count and its own spacing")
-        km = [s for s in fv.statements() if isinstance(s, ast.Assign) and "reduce" in U(s.value) and U(comps[0].targets[0]) in names_in(s.value)]
-        okk = len(km) == 1 and U(km[0].value).replace(" ", "") == f"np.sqrt(reduce(np.add.outer,{U(comps[0].targets[0])})).flat[1:]"
+        kname = U(comps[0].targets[0])
+        km = [s for s in fv.statements() if isinstance(s, ast.Assign) and ".flat[1:]" in U(s.value) and "reduce" in U(fv.expand(s.value, s, stop=(kname,))) and kname in names_in(fv.expand(s.value, s, stop=(kname,)))]
+        okk = len(km) == 1 and U(fv.expand(km[0].value, km[0], stop=(kname,))).replace(" ", "") == f"np.sqrt(reduce(np.add.outer,{kname})).flat[1:]"
         ctx.decide(okk, "INDEXAGREE", SF + ":magnitude", (fi, km[0]) if km else fi, "|k| = √(Σ_i k_i²) on the full mode grid, zero mode dropped like in the spectrum ([1:])",
                    "the wave-number magnitudes are not sqrt(outer sum of squared components).flat[1:] — modes and wave numbers would be paired wrongly")
     else:
@@ -326,8 +354,12 @@ def check_ls_structure(ctx):
             ctx.decide(bool(ok), "EXHAUST", LS + ":method", (fi, s), "all three documented methods are dispatched; unknown names raise ValueError",
                        f"method dispatch handles {sorted(names)}; documented: structure_factor_mean, structure_factor_maximum, droplet_detection (+ ValueError otherwise)")
     # droplet_detection: free axes and box extent
-    ax = [s for s in fv.statements() if isinstance(s, ast.Assign) and U(s.targets[0]) == "axes"]
-    ok = len(ax) == 1 and U(ax[0].value) == "set(range(grid.dim)) - set(grid.coordinate_constraints)"
+    fld = fi.params[0]
+    want_axes = f"set(range({fld}.grid.dim)) - set({fld}.grid.coordinate_constraints)"
+    ax = [s for s in fv.statements() if isinstance(s, ast.Assign) and isinstance(s.targets[0], ast.Name) and U(fv.expand(s.value, s, stop=(fld,))) == want_axes]
+    if not ax:
+        ax = [s for s in fv.statements() if isinstance(s, ast.Assign) and U(s.targets[0]) == "axes"]
+    ok = len(ax) == 1 and U(fv.expand(ax[0].value, ax[0], stop=(fld,))) == want_axes
     ctx.decide(ok, "VOLUME", LS + ":axes", (fi, ax[0]) if ax else fi, "droplets can be placed along the axes not constrained by the grid's symmetry",
                "the free axes are not set(range(grid.dim)) − set(grid.coordinate_constraints)")
     loc = [c for c in fv.calls() if (fv.callee(c) or "").endswith("locate_droplets")]
@@ -377,7 +409,13 @@ def check_ls_structure(ctx):
     # peak: maximum excluding k = 0, bracket around it, 2π/k
     sfc = [c for c in fv.calls() if (fv.callee(c) or "").endswith("get_structure_factor")]
     peak = [c for c in sfc if any("maximum" in U(t) and p for t, p in si.guards(c))]
-    okc = len(peak) == 1 and isinstance(kwarg(peak[0], "smoothing"), ast.Constant) and kwarg(peak[0], "smoothing").value is None and isinstance(kwarg(peak[0], "add_zero"), ast.Constant) and kwarg(peak[0], "add_zero").value is True
+    okc = False
+    if len(peak) == 1:
+        from ..astutil import call_bindings
+
+        bnd, unres = call_bindings(fv, peak[0], m.func(SF))
+        sm_, az_ = bnd.get("smoothing"), bnd.get("add_zero")
+        okc = not unres and isinstance(sm_, ast.Constant) and sm_.value is None and isinstance(az_, ast.Constant) and az_.value is True
     K = S = None
     if len(peak) == 1:
         pst = si.statement(peak[0])
